@@ -77,10 +77,11 @@ class C19(Property):
             d = rng.uniform(5.0, 90.0)
             items.append((0, [(x, y, "C"), (x, y, None), (g.f32(x + d), g.f32(y + 1.0), None)], "catmull-doubled-first"))
         items.append((1, [(404.0, -3.0, "P"), (279.0, 148.9139862060547, None), (358.74554443359375, 51.998291015625, None)], "witness-F13"))
-        nats = g.natural_dists(core.run_impl, [(m, p) for m, p, _ in items])
+        lens = g.natural_lengths(core.run_impl, [(m, p) for m, p, _ in items])
         pre = []
-        for (m, pts, tag), nat in zip(items, nats):
-            classes = g.len_classes_nat(rng, nat)
+        for (m, pts, tag), cl in zip(items, lens):
+            nat = cl[-1] if cl else None
+            classes = g.len_classes_nat(rng, nat, cl)
             if tag == "catmull-doubled-first":
                 classes = [("tiny", rng.uniform(0.01, 5.0))] + classes
                 name, L = classes[0] if rng.random() < 0.7 else rng.choice(classes)
